@@ -27,7 +27,7 @@ def listingVerdict (listing pfx : Bytes) (obs : List String) : Verdict :=
   if obs == ["panic"] then .viol "C15,C10" "GetConfig panics"
   else if obs != s then
     -- is the listing one that git can print (every record = key [LF value] NUL)? then it is a violation
-    .viol "C15" s!"GetConfig returned {obs}; the listing read record by record (NUL-terminated) gives {s}"
+    .viol "C15,C07" s!"GetConfig returned {obs}; the listing read record by record (NUL-terminated) gives {s}"
   else if m != obs then .diff (joinTab m) "model differs" else .ok
 
 def configEngine : Engine := fun inp obs =>
